@@ -1,15 +1,21 @@
 import TrionModel.Model.Map
+import TrionModel.Model.MapOps
 import TrionModel.Driver.Util
 /-! Line protocol for the memory-map model.
 
 * `map run <op>;<op>;…` — one self-contained request holding a whole operation history on an initially
   empty map. Reply: after EVERY op its return value and the full state dump, joined with ` | `:
   `<ret> [<first>:<hex>,<first>:<hex>,…]`. Addresses in requests are decimal, in replies 8 hex digits.
-  ops: `put:A:HEX` `rm:A` `rr:LO:HI` `clr` `find:A:e|b|a` `get:A:e|b|a` `cnt` `cr:LO:HI` `ir:LO:HI` `len`
+  ops: `put:A:HEX` `rm:A` `rr:LO:HI` `clr` `find:A:e|b|a` `get:A:e|b|a` `cnt` `cr:LO:HI` `ir:LO:HI` `len`;
+  `xput:A:HEX` and `xrr:LO:HI` run the OPERATIONAL (statement-by-statement) models `putOps` / `removeRangeOps`
+  of Model/MapOps.lean instead of the recursive forms (a model panic prints `panic <site>`, a `.desync`
+  prints `desync <site>`; the state is then left unchanged).
 * `map enum <base> <depth> <qdepth> <prefix>` — bulk: the model itself enumerates ALL histories of length
   ≤ depth over the 58-operation alphabet of the 6-address window at `base` that start with the op indices
   in `prefix` (`-` = none), hashing return value and state after every op (and every query of the probe
   set at nodes of depth ≤ qdepth); reply = 64-bit digest (hex).
+* `map enumx <base> <depth> <qdepth> <prefix>` — the same enumeration with every put / remove_range executed by
+  the operational models `putOps` / `removeRangeOps` (panic / desync hash as 99 / 97 and keep the state).
 -/
 namespace Trion.Driver.Map
 open Trion.Driver Trion.Map
@@ -39,6 +45,25 @@ def textOp (ps : Segs) (w : List String) : Option (String × Segs) :=
       match put ps a (bytesOfNats d) with
       | (.ok n, ps') => some ("ok " ++ toString n, ps')
       | (.error (.overflow need have_), ps') => some ("err " ++ toString need ++ " " ++ toString have_, ps')
+    | _, _ => none
+  | ["xput", a, d] => match a.toNat?, parseHexBytes d with
+    | some a, some d =>
+      if a > u32Max then none else
+      match putOps ps a (bytesOfNats d) with
+      | .ok (.ok n, ps') => some ("ok " ++ toString n, ps')
+      | .ok (.error (.overflow need have_), ps') => some ("err " ++ toString need ++ " " ++ toString have_, ps')
+      | .panic site => some ("panic " ++ site, ps)
+      | .desync site => some ("desync " ++ site, ps)
+    | _, _ => none
+  | ["xrr", lo, hi] => match lo.toNat?, hi.toNat? with
+    | some lo, some hi =>
+      if lo > u32Max ∨ hi > u32Max then none else
+      match rangeNew lo hi with
+      | .panic => some ("panic", ps)
+      | .ok (lo, hi) => match removeRangeOps ps lo hi with
+        | .ok ps' => some ("ok", ps')
+        | .panic site => some ("panic " ++ site, ps)
+        | .desync site => some ("desync " ++ site, ps)
     | _, _ => none
   | ["rm", a] => match a.toNat? with
     | some a =>
@@ -122,8 +147,15 @@ def pairs6 : List (Nat × Nat) :=
 def dataAt (t n : Nat) : List UInt8 := (List.range n).map fun j => ((16 * (t + 1) + j) % 256).toUInt8
 
 /-- apply alphabet entry `i` (0..57) at history position `t`, hashing return value and new state -/
-def applyIdx (base t i : Nat) (ps : Segs) (h : UInt64) : UInt64 × Segs :=
+def applyIdx (x : Bool) (base t i : Nat) (ps : Segs) (h : UInt64) : UInt64 × Segs :=
   if i < 30 then
+    if x then
+      match putOps ps (base + i / 5) (dataAt t (i % 5)) with
+      | .ok (.ok n, ps') => (mixState (mix (mix h 1) n) ps', ps')
+      | .ok (.error (.overflow need have_), ps') => (mixState (mix (mix (mix h 2) need) have_) ps', ps')
+      | .panic _ => (mixState (mix h 99) ps, ps)
+      | .desync _ => (mixState (mix h 97) ps, ps)
+    else
     match put ps (base + i / 5) (dataAt t (i % 5)) with
     | (.ok n, ps') => (mixState (mix (mix h 1) n) ps', ps')
     | (.error (.overflow need have_), ps') => (mixState (mix (mix (mix h 2) need) have_) ps', ps')
@@ -134,6 +166,12 @@ def applyIdx (base t i : Nat) (ps : Segs) (h : UInt64) : UInt64 × Segs :=
     | (.ok (some (r, d)), ps') => (mixState (mixBytes (mix (mix (mix h 4) r.1) r.2) d) ps', ps')
   else if i < 57 then
     let p := pairs6.getD (i - 36) (0, 0)
+    if x then
+      match removeRangeOps ps (base + p.1) (base + p.2) with
+      | .ok ps' => (mixState (mix h 5) ps', ps')
+      | .panic _ => (mixState (mix h 99) ps, ps)
+      | .desync _ => (mixState (mix h 97) ps, ps)
+    else
     let ps' := removeRange ps (base + p.1) (base + p.2)
     (mixState (mix h 5) ps', ps')
   else
@@ -175,19 +213,19 @@ def hashQueries (base : Nat) (ps : Segs) (h : UInt64) : UInt64 :=
         | .ok xs => mixItems (mix h 16) xs
     else h) h) h
 
-def enumGo (base qd : Nat) : Nat → Nat → Segs → UInt64 → UInt64
+def enumGo (x : Bool) (base qd : Nat) : Nat → Nat → Segs → UInt64 → UInt64
   | 0, _, _, h => h
   | fuel + 1, t, ps, h =>
     (List.range 58).foldl (fun h i =>
-      let (h1, ps') := applyIdx base t i ps h
+      let (h1, ps') := applyIdx x base t i ps h
       let h2 := if t + 1 ≤ qd then hashQueries base ps' h1 else h1
-      enumGo base qd fuel (t + 1) ps' h2) h
+      enumGo x base qd fuel (t + 1) ps' h2) h
 
-def enumPrefix (base depth qd : Nat) (pre : List Nat) : UInt64 :=
+def enumPrefix (x : Bool) (base depth qd : Nat) (pre : List Nat) : UInt64 :=
   let rec go : List Nat → Nat → Segs → UInt64 → UInt64
-    | [], t, ps, h => enumGo base qd (depth - t) t ps h
+    | [], t, ps, h => enumGo x base qd (depth - t) t ps h
     | i :: r, t, ps, h =>
-      let (h1, ps') := applyIdx base t i ps h
+      let (h1, ps') := applyIdx x base t i ps h
       let h2 := if t + 1 ≤ qd then hashQueries base ps' h1 else h1
       go r (t + 1) ps' h2
   go pre 0 [] fnvInit
@@ -195,14 +233,18 @@ def enumPrefix (base depth qd : Nat) (pre : List Nat) : UInt64 :=
 def parseIdxList (s : String) : Option (List Nat) :=
   if s = "-" then some [] else (s.splitOn ",").mapM fun w => w.toNat?
 
+def handleEnum (x : Bool) (base depth qd pre : String) : String :=
+  match base.toNat?, depth.toNat?, qd.toNat?, parseIdxList pre with
+  | some base, some depth, some qd, some pre =>
+    if base + 5 > u32Max ∨ pre.any (· ≥ 58) ∨ pre.length > depth then "bad-op"
+    else toHex 16 (enumPrefix x base depth qd pre).toNat
+  | _, _, _, _ => "bad-op"
+
 def handle : List String → String
   | ["run", ops] => runText ((ops.splitOn ";").filter (· ≠ ""))
   | ["run"] => ""
-  | ["enum", base, depth, qd, pre] => match base.toNat?, depth.toNat?, qd.toNat?, parseIdxList pre with
-    | some base, some depth, some qd, some pre =>
-      if base + 5 > u32Max ∨ pre.any (· ≥ 58) ∨ pre.length > depth then "bad-op"
-      else toHex 16 (enumPrefix base depth qd pre).toNat
-    | _, _, _, _ => "bad-op"
+  | ["enum", base, depth, qd, pre] => handleEnum false base depth qd pre
+  | ["enumx", base, depth, qd, pre] => handleEnum true base depth qd pre
   | _ => "bad-op"
 
 end Trion.Driver.Map
